@@ -50,10 +50,12 @@ var errPipes = map[string][]config.MechanismConfig{
 	"not-applicable+redirect": {{"error_handler": "eh_default", "if": "false"}, {"error_handler": "eh_redirect"}},
 	"render-fails":            {{"error_handler": "eh_badtpl"}},
 	"if-eval-fails":           {{"error_handler": "eh_default", "if": evalErrExpr}},
+	// a request dependent redirect target that renders to nothing for this request
+	"redirect-to-blank": {{"error_handler": "eh_blank"}},
 }
 
 var errPipeOrder = []string{"none", "default", "redirect", "www_authenticate", "not-applicable", "not-applicable+redirect",
-	"render-fails", "if-eval-fails"}
+	"render-fails", "if-eval-fails", "redirect-to-blank"}
 
 var (
 	authnOutcomes = []string{"subject", "argument-error", "authentication-error", "communication-error", "panic"}
@@ -230,6 +232,7 @@ func newFixture() *fixture {
 		{ID: "eh_redirect", Type: errorhandlers.ErrorHandlerRedirect, Conf: map[string]any{"to": "http://idp.local/login"}},
 		{ID: "eh_www", Type: errorhandlers.ErrorHandlerWWWAuthenticate},
 		{ID: "eh_badtpl", Type: errorhandlers.ErrorHandlerRedirect, Conf: map[string]any{"to": "http://x/{{ .Request.NoSuchField }}"}},
+		{ID: "eh_blank", Type: errorhandlers.ErrorHandlerRedirect, Conf: map[string]any{"to": `{{ .Request.Header "X-Login-Url" }}`}},
 	})
 	if err != nil {
 		panic(err)
@@ -455,7 +458,7 @@ func Check() *engine.Check {
 		ID:    "C01",
 		Level: "exploration",
 		Rule: "full product of pipeline structures (1-2 authenticators with every combination of the fallback flag, 0-1 [quick] / 0-2 [thorough] authorizer/contextualizer " +
-			"steps and 0-1 finalizer, each with if in {absent,true,false,evaluation error} and continue-on-error off/on) x 8 error pipelines (none, " +
+			"steps and 0-1 finalizer, each with if in {absent,true,false,evaluation error} and continue-on-error off/on) x 9 error pipelines (redirect to a target rendering blank, none, " +
 			"real default/redirect/www_authenticate handlers, non-applicable, non-applicable then redirect, handler whose template fails, handler " +
 			"whose condition fails) x rule source (regular rule, default rule, no rule) x every reachable vector of step outcomes (success, 3 error " +
 			"kinds, panic; enumerated lazily as a decision tree) through the three assembled real services; oracle = decision function transcribed " +
